@@ -640,3 +640,340 @@ Proof.
   - apply get_fld_alloc in H1 as (Hr1 & Hv1 & He1 & _). split; [exact Hr1|split; [exact Hv1|]].
     apply heap_frame_ext; exact He1.
 Qed.
+
+(* ------------------------------------------------------------------ the no-alias invariant *)
+Definition refs_lt (w : world) : Prop :=
+  (forall v r, In v (vars w) -> vref v = Some r -> r < length (heap w)) /\
+  (forall j r, state_is w j r -> r < length (heap w)) /\
+  (forall j r, sens_is w j r -> r < length (heap w)).
+
+(* the buffer held as sensitivity of a signal is referenced by nothing else *)
+Definition private (w : world) : Prop :=
+  forall i r, sens_is w i r ->
+    (forall v, In v (vars w) -> vref v <> Some r) /\
+    (forall j, ~ state_is w j r) /\
+    (forall j, j <> i -> ~ sens_is w j r).
+
+Definition Inv (w : world) : Prop := refs_lt w /\ private w.
+
+(* what a signal holds as sensitivity, as a plain value *)
+Inductive aval := ANone | AScal (c : C) (cx np : bool) | AArr (d : list C) (shp : list Z) (cx : bool).
+Definition val_abs (h : list buf) (v : val) : aval :=
+  match v with
+  | VNone => ANone
+  | VScal c cx np => AScal c cx np
+  | VWin r ix shp => AArr (rd h r ix) shp (bcplx (getbuf h r))
+  end.
+Definition sens_abs (w : world) (i : nat) : aval := val_abs (heap w) (r_se (root w i)).
+Definition state_abs (w : world) (i : nat) : aval := val_abs (heap w) (r_st (root w i)).
+
+(* operations of the protocol: the sensitivity of a Signal is written through add_sensitivity / reset (and through
+   slice assignment, which only copies data); it is not assigned an array object directly and its object is not
+   handed out *)
+Definition protocol (w : world) (o : op) : Prop :=
+  match o with
+  | OSetSens _ p v => p <> [] \/ vref (nth v (vars w) VNone) = None
+  | OGetSens _ _ _ => False
+  | ONewSig _ vse => vref (nth vse (vars w) VNone) = None
+  | _ => True
+  end.
+Definition targets (o : op) (i : nat) : Prop :=
+  match o with OAddSens j _ _ | OReset j _ _ | OSetSens j _ _ => j = i | _ => False end.
+
+Definition pubval (w : world) (x : val) : Prop :=
+  forall r, vref x = Some r -> r < length (heap w) /\ forall i, ~ sens_is w i r.
+
+Lemma In_upd {A} (l : list A) k x v : In v (upd l k x) -> v = x \/ In v l.
+Proof.
+  revert k; induction l as [|h t IH]; intros [|k] H; cbn in *; auto.
+  - destruct H; auto.
+  - destruct H as [H|H]; auto. destruct (IH _ H); auto.
+Qed.
+
+Lemma val_abs_frame h h' v : (forall r, vref v = Some r -> getbuf h' r = getbuf h r) -> val_abs h' v = val_abs h v.
+Proof.
+  intros H. destruct v as [|c cx np|r ix shp]; cbn; auto.
+  unfold rd. rewrite (H r eq_refl). reflexivity.
+Qed.
+
+Lemma pubval_var w v : Inv w -> pubval w (nth v (vars w) VNone).
+Proof.
+  intros [[Hl _] Hp] r Hr.
+  destruct (nth_in_or_default v (vars w) VNone) as [Hin|Hd]; [|rewrite Hd in Hr; discriminate].
+  split; [eapply Hl; eauto|]. intros i Hi. destruct (Hp i r Hi) as (A & _ & _). eapply A; eauto.
+Qed.
+
+Lemma pubval_state w i : Inv w -> pubval w (r_st (root w i)).
+Proof.
+  intros [[_ [Hl _]] Hp] r Hr. split; [eapply Hl; exact Hr|].
+  intros j Hj. destruct (Hp j r Hj) as (_ & B & _). eapply B; exact Hr.
+Qed.
+
+Lemma pubval_none w : pubval w VNone. Proof. intros r Hr; discriminate. Qed.
+Lemma pubval_scal w c cx np : pubval w (VScal c cx np). Proof. intros r Hr; discriminate. Qed.
+
+(* Inv does not look at contents: same references, heap not shorter *)
+Lemma Inv_same_refs w w1 : Inv w -> roots w1 = roots w -> vars w1 = vars w -> length (heap w) <= length (heap w1) -> Inv w1.
+Proof.
+  intros [[A [B D]] Hp] Hr Hv Hl. unfold Inv, refs_lt, private, sens_is, state_is, root in *. rewrite Hr, Hv.
+  split; [split; [|split]|].
+  - intros v r Hin Hx. specialize (A v r Hin Hx). lia.
+  - intros j r Hx. specialize (B j r Hx). lia.
+  - intros j r Hx. specialize (D j r Hx). lia.
+  - exact Hp.
+Qed.
+
+Lemma pubval_same_refs w w1 x : roots w1 = roots w -> length (heap w) <= length (heap w1) -> pubval w x -> pubval w1 x.
+Proof.
+  intros Hr Hl Hx r E. destruct (Hx r E) as [A B]. split; [lia|]. unfold sens_is, root in *. rewrite Hr. exact B.
+Qed.
+
+Lemma pubval_fresh w w1 x : Inv w -> roots w1 = roots w -> 
+  (forall r, vref x = Some r -> length (heap w) <= r /\ r < length (heap w1)) -> pubval w1 x.
+Proof.
+  intros [[_ [_ D]] _] Hr Hx r E. destruct (Hx r E) as [A B]. split; [exact B|].
+  intros i Hi. unfold sens_is, root in Hi. rewrite Hr in Hi. specialize (D i r Hi). lia.
+Qed.
+
+Lemma Inv_put_var w k x : Inv w -> pubval w x -> Inv (set_vars w (upd (vars w) k x)).
+Proof.
+  intros [[A [B D]] Hp] Hx. split; [split; [|split]|]; cbn.
+  - intros v r Hin E. apply In_upd in Hin as [->|Hin]; [apply Hx; exact E|eapply A; eauto].
+  - exact B.
+  - exact D.
+  - intros i r Hi. destruct (Hp i r Hi) as (P1 & P2 & P3). split; [|split; assumption].
+    intros v Hin E. cbn in Hin. apply In_upd in Hin as [->|Hin]; [|eapply P1; eauto].
+    destruct (Hx r E) as [_ Hn]. apply (Hn i). exact Hi.
+Qed.
+
+Lemma sens_abs_put_var w k x i : sens_abs (set_vars w (upd (vars w) k x)) i = sens_abs w i.
+Proof. reflexivity. Qed.
+
+Lemma root_upd_eq w i rs : i < length (roots w) -> root (set_roots w (upd (roots w) i rs)) i = rs.
+Proof. intros H. unfold root; cbn. apply nth_upd_eq; exact H. Qed.
+Lemma root_upd_neq w i j rs : i <> j -> root (set_roots w (upd (roots w) i rs)) j = root w j.
+Proof. intros H. unfold root; cbn. apply nth_upd_neq; exact H. Qed.
+
+Lemma Inv_put_state w i x : Inv w -> pubval w x ->
+  Inv (set_roots w (upd (roots w) i {| r_st := x; r_se := r_se (root w i); r_keep := r_keep (root w i) |})).
+Proof.
+  intros HI Hx.
+  destruct (Nat.lt_ge_cases i (length (roots w))) as [Hlt|Hge].
+  2:{ rewrite upd_oob by exact Hge. replace (set_roots w (roots w)) with w by (destruct w; reflexivity). exact HI. }
+  set (w1 := set_roots w _).
+  assert (Hse : forall j, r_se (root w1 j) = r_se (root w j)).
+  { intros j. destruct (Nat.eq_dec i j) as [<-|Hne]; unfold w1; [rewrite root_upd_eq by exact Hlt; reflexivity|rewrite root_upd_neq by exact Hne; reflexivity]. }
+  assert (Hst : forall j r, state_is w1 j r -> state_is w j r \/ vref x = Some r).
+  { intros j r. unfold state_is. destruct (Nat.eq_dec i j) as [<-|Hne]; unfold w1; [rewrite root_upd_eq by exact Hlt; cbn; auto|rewrite root_upd_neq by exact Hne; auto]. }
+  destruct HI as [[A [B D]] Hp]. split; [split; [|split]|].
+  - exact A.
+  - intros j r Hj. destruct (Hst j r Hj) as [H|H]; [eapply B; exact H|apply Hx; exact H].
+  - intros j r Hj. unfold sens_is in Hj. rewrite Hse in Hj. eapply D; exact Hj.
+  - intros j r Hj. unfold sens_is in Hj. rewrite Hse in Hj. destruct (Hp j r Hj) as (P1 & P2 & P3).
+    split; [exact P1|split].
+    + intros j' Hj'. destruct (Hst j' r Hj') as [H|H]; [eapply P2; exact H|]. destruct (Hx r H) as [_ Hn]. apply (Hn j). exact Hj.
+    + intros j' Hne Hj'. unfold sens_is in Hj'. rewrite Hse in Hj'. eapply P3; eauto.
+Qed.
+
+(* an operation with the sensitivity footprint on root i keeps the invariant and every other signal's sensitivity *)
+Lemma Inv_sens_footprint w w' i : Inv w -> sens_footprint i w w' -> Inv w'.
+Proof.
+  intros [[A [B D]] Hp] [HR Hnew]. destruct HR as [Rv Rl Ro Rs Rk Rh Rm Rf].
+  assert (Hse : forall j r, sens_is w' j r -> j <> i -> sens_is w j r).
+  { intros j r Hj Hne. unfold sens_is in *. rewrite Ro in Hj by exact Hne. exact Hj. }
+  assert (Hst : forall j r, state_is w' j r -> state_is w j r).
+  { intros j r Hj. unfold state_is in *. destruct (Nat.eq_dec j i) as [->|Hne]; [rewrite Rs in Hj|rewrite Ro in Hj by exact Hne]; exact Hj. }
+  split; [split; [|split]|].
+  - rewrite Rv. intros v r Hin E. specialize (A v r Hin E). lia.
+  - intros j r Hj. specialize (B j r (Hst j r Hj)). lia.
+  - intros j r Hj. destruct (Nat.eq_dec j i) as [->|Hne]; [apply Hnew; exact Hj|]. specialize (D j r (Hse j r Hj Hne)). lia.
+  - intros j r Hj. rewrite Rv. destruct (Nat.eq_dec j i) as [->|Hne].
+    + destruct (Hnew r Hj) as [[Hold|Hfresh] Hlt].
+      * destruct (Hp i r Hold) as (P1 & P2 & P3). split; [exact P1|split].
+        -- intros j' Hj'. apply (P2 j'). apply Hst; exact Hj'.
+        -- intros j' Hne' Hj'. apply (P3 j' Hne'). apply Hse; assumption.
+      * split; [|split].
+        -- intros v Hin E. specialize (A v r Hin E). lia.
+        -- intros j' Hj'. specialize (B j' r (Hst j' r Hj')). lia.
+        -- intros j' Hne' Hj'. specialize (D j' r (Hse j' r Hj' Hne')). lia.
+    + pose proof (Hse j r Hj Hne) as Hj0. destruct (Hp j r Hj0) as (P1 & P2 & P3). split; [exact P1|split].
+      * intros j' Hj'. apply (P2 j'). apply Hst; exact Hj'.
+      * intros j' Hne' Hj'. destruct (Nat.eq_dec j' i) as [->|Hne2]; [|apply (P3 j' Hne'); apply Hse; assumption].
+        destruct (Hnew r Hj') as [[Hold|Hfresh] _].
+        -- apply (P3 i); [congruence|exact Hold].
+        -- specialize (D j r Hj0). lia.
+Qed.
+
+Lemma sens_abs_sens_footprint w w' i j : Inv w -> sens_footprint i w w' -> j <> i -> sens_abs w' j = sens_abs w j.
+Proof.
+  intros [[A [B D]] Hp] [HR _] Hne. destruct HR as [Rv Rl Ro Rs Rk Rh Rm Rf].
+  unfold sens_abs. rewrite Ro by exact Hne. apply val_abs_frame. intros r Hr.
+  apply Rf; [eapply D; exact Hr|]. intros Hi. destruct (Hp j r Hr) as (_ & _ & P3). eapply (P3 i); [congruence|exact Hi].
+Qed.
+
+(* ... and every signal's state, every variable *)
+Lemma state_abs_sens_footprint w w' i j : Inv w -> sens_footprint i w w' -> state_abs w' j = state_abs w j.
+Proof.
+  intros [[A [B D]] Hp] [HR _]. destruct HR as [Rv Rl Ro Rs Rk Rh Rm Rf].
+  unfold state_abs.
+  assert (E : r_st (root w' j) = r_st (root w j)) by (destruct (Nat.eq_dec j i) as [->|Hne]; [exact Rs|rewrite Ro by exact Hne; reflexivity]).
+  rewrite E. apply val_abs_frame. intros r Hr.
+  apply Rf; [eapply B; exact Hr|]. intros Hi. destruct (Hp i r Hi) as (_ & P2 & _). eapply P2; exact Hr.
+Qed.
+
+(* ------------------------------------------------------------------ every protocol operation keeps the invariant and
+   leaves the sensitivity of every signal it does not target unchanged *)
+Lemma world_heap_ext w w1 : Inv w -> roots w1 = roots w -> vars w1 = vars w -> heap_ext (heap w) (heap w1) ->
+  Inv w1 /\ forall i, sens_abs w1 i = sens_abs w i.
+Proof.
+  intros HI Hr Hv He. split.
+  - eapply Inv_same_refs; eauto. apply heap_ext_len; exact He.
+  - intros i. unfold sens_abs, root. rewrite Hr. apply val_abs_frame. intros r E.
+    apply heap_ext_getbuf; [exact He|]. destruct HI as [[_ [_ D]] _]. eapply D. exact E.
+Qed.
+
+Lemma pubval_derived w w1 x0 a : Inv w -> roots w1 = roots w -> length (heap w) <= length (heap w1) ->
+  derived (length (heap w)) (length (heap w1)) x0 a -> pubval w x0 -> pubval w1 a.
+Proof.
+  intros HI Hr Hl Hd Hx r E. destruct (Hd r E) as [H|H].
+  - eapply pubval_same_refs; eauto.
+  - eapply pubval_fresh; eauto. intros r' E'. rewrite E in E'; inversion E'; subst. exact H.
+Qed.
+
+Lemma step_put_var w w1 k x : Inv w -> roots w1 = roots w -> vars w1 = vars w -> heap_ext (heap w) (heap w1) ->
+  pubval w1 x ->
+  Inv (set_vars w1 (upd (vars w1) k x)) /\ forall i, sens_abs (set_vars w1 (upd (vars w1) k x)) i = sens_abs w i.
+Proof.
+  intros HI Hr Hv He Hx. destruct (world_heap_ext w w1 HI Hr Hv He) as [HI1 Hs1]. split.
+  - apply Inv_put_var; assumption.
+  - intros i. rewrite sens_abs_put_var. apply Hs1.
+Qed.
+
+Lemma Inv_new_sig w st se : Inv w -> pubval w st -> vref se = None ->
+  let w' := set_roots w (roots w ++ [{| r_st := st; r_se := se; r_keep := negb (is_none se) |}]) in
+  Inv w' /\ forall i, i < length (roots w) -> sens_abs w' i = sens_abs w i.
+Proof.
+  intros HI Hst Hse w'.
+  assert (Hroot : forall j, (j < length (roots w) /\ root w' j = root w j) \/
+                            (j = length (roots w) /\ root w j = root0 /\ r_st (root w' j) = st /\ r_se (root w' j) = se) \/
+                            (root w' j = root0 /\ root w j = root0)).
+  { intros j. unfold root, w'; cbn. destruct (lt_eq_lt_dec j (length (roots w))) as [[H|H]|H].
+    - left. split; [exact H|]. apply app_nth1; exact H.
+    - right; left. subst j. rewrite app_nth2 by lia. rewrite Nat.sub_diag. cbn. rewrite nth_overflow by lia. auto.
+    - right; right. rewrite !nth_overflow; auto; try lia. rewrite app_length; cbn; lia. }
+  assert (Hsens : forall j r, sens_is w' j r -> sens_is w j r).
+  { intros j r Hj. unfold sens_is in *. destruct (Hroot j) as [[_ E]|[(_ & _ & _ & E)|[E _]]]; rewrite E in Hj; auto; try discriminate.
+    rewrite Hse in Hj; discriminate. }
+  assert (Hstate : forall j r, state_is w' j r -> state_is w j r \/ vref st = Some r).
+  { intros j r Hj. unfold state_is in *. destruct (Hroot j) as [[_ E]|[(_ & _ & E & _)|[E _]]]; rewrite E in Hj; auto; try discriminate. }
+  destruct HI as [[A [B D]] Hp]. split.
+  - split; [split; [|split]|].
+    + exact A.
+    + intros j r Hj. destruct (Hstate j r Hj) as [H|H]; [eapply B; exact H|apply Hst; exact H].
+    + intros j r Hj. eapply D. apply Hsens; exact Hj.
+    + intros j r Hj. pose proof (Hsens j r Hj) as Hj0. destruct (Hp j r Hj0) as (P1 & P2 & P3). split; [exact P1|split].
+      * intros j' Hj'. destruct (Hstate j' r Hj') as [H|H]; [eapply P2; exact H|]. destruct (Hst r H) as [_ Hn]. apply (Hn j); exact Hj0.
+      * intros j' Hne Hj'. apply (P3 j' Hne). apply Hsens; exact Hj'.
+  - intros i Hi. unfold sens_abs.
+    replace (root w' i) with (root w i) by (unfold root, w'; cbn; symmetry; apply app_nth1; exact Hi). reflexivity.
+Qed.
+
+Lemma sens_valid w i : Inv w -> forall r, sens_is w i r -> r < length (heap w).
+Proof. intros [[_ [_ D]] _] r Hr. eapply D; exact Hr. Qed.
+Lemma state_valid w i : Inv w -> forall r, state_is w i r -> r < length (heap w).
+Proof. intros [[_ [B _]] _] r Hr. eapply B; exact Hr. Qed.
+
+Lemma sens_abs_put_state w i x j :
+  sens_abs (set_roots w (upd (roots w) i {| r_st := x; r_se := r_se (root w i); r_keep := r_keep (root w i) |})) j = sens_abs w j.
+Proof.
+  unfold sens_abs. change (heap (set_roots w _)) with (heap w).
+  destruct (Nat.lt_ge_cases i (length (roots w))) as [Hlt|Hge].
+  - destruct (Nat.eq_dec i j) as [<-|Hne]; [rewrite root_upd_eq by exact Hlt|rewrite root_upd_neq by exact Hne]; reflexivity.
+  - rewrite upd_oob by exact Hge. reflexivity.
+Qed.
+
+Theorem isolation_step w o : Inv w -> protocol w o ->
+  Inv (exec o w) /\
+  (forall i, ~ targets o i -> i < length (roots w) -> sens_abs (exec o w) i = sens_abs w i).
+Proof.
+  intros HI Hp. unfold exec.
+  destruct o as [k d cx shp|k c cx np|k|k v s|v d|vst vse|i p v|i p v|k i p|k i p|i p v|i p kk]; cbn [step].
+  - (* ONewArr *)
+    unfold bind, new_array, bind, halloc, ret, put_var. cbn [fst].
+    set (w1 := set_heap w (heap w ++ [{| bdata := d; bcplx := cx |}])).
+    assert (He : heap_ext (heap w) (heap w1)) by (eexists; reflexivity).
+    destruct (step_put_var w w1 k (VWin (length (heap w)) (whole (length d)) shp) HI eq_refl eq_refl He) as [A B].
+    + eapply pubval_fresh; [exact HI|reflexivity|]. intros r E; cbn in E; inversion E; subst.
+      unfold w1; cbn. rewrite app_length; cbn; lia.
+    + split; [exact A|intros i _ _; apply B].
+  - (* ONewScal *)
+    unfold put_var. cbn [fst].
+    destruct (step_put_var w w k (VScal c cx np) HI eq_refl eq_refl (heap_ext_refl _) (pubval_scal _ _ _ _)) as [A B].
+    split; [exact A|intros i _ _; apply B].
+  - (* ONewNone *)
+    unfold put_var. cbn [fst].
+    destruct (step_put_var w w k VNone HI eq_refl eq_refl (heap_ext_refl _) (pubval_none _)) as [A B].
+    split; [exact A|intros i _ _; apply B].
+  - (* OSliceVar *)
+    unfold bind, get_var.
+    destruct (getitem (nth v (vars w) VNone) s w) as [w1 [a|e]] eqn:E.
+    + apply getitem_alloc in E as (Hr & Hv & He & Hd). specialize (Hd a eq_refl).
+      unfold put_var. cbn [fst].
+      destruct (step_put_var w w1 k a HI Hr Hv He) as [A B].
+      * eapply pubval_derived; eauto using pubval_var. apply heap_ext_len; exact He.
+      * split; [exact A|intros i _ _; apply B].
+    + apply getitem_alloc in E as (Hr & Hv & He & _). cbn [fst].
+      destruct (world_heap_ext w w1 HI Hr Hv He) as [A B]. split; [exact A|intros i _ _; apply B].
+  - (* OMut *)
+    unfold bind, get_var.
+    pose proof (pubval_var w v HI) as Hx.
+    destruct (nth v (vars w) VNone) as [|c cx np|r ix shp] eqn:Ev; try (cbn; split; [exact HI|reflexivity]).
+    destruct (Nat.eqb (length d) (length ix)); [|cbn; split; [exact HI|reflexivity]].
+    unfold mwrite. cbn [fst]. split.
+    + eapply Inv_same_refs; [exact HI|reflexivity|reflexivity|]. cbn. rewrite hwrite_length; lia.
+    + intros i _ _. unfold sens_abs. cbn. apply val_abs_frame. intros r' Hr'.
+      apply getbuf_hwrite_other. intros ->. destruct (Hx r eq_refl) as [_ Hn]. apply (Hn i). exact Hr'.
+  - (* ONewSig *)
+    unfold bind, get_var. cbn [fst].
+    destruct (Inv_new_sig w (nth vst (vars w) VNone) (nth vse (vars w) VNone) HI (pubval_var _ _ HI) Hp) as [A B].
+    split; [exact A|intros i _ Hi; apply B; exact Hi].
+  - (* OSetState *)
+    unfold bind at 1. unfold get_var at 1.
+    destruct p as [|s p'].
+    + cbn. unfold bind, get_root, put_root. cbn [fst]. fold (root w i). split.
+      * apply Inv_put_state; [exact HI|apply pubval_var; exact HI].
+      * intros j _ _. apply sens_abs_put_state.
+    + destruct (set_st i (s :: p') (nth v (vars w) VNone) w) as [w' res] eqn:E. cbn [fst].
+      apply set_st_slice_footprint in E as (Hr & Hv & Hf); [|apply state_valid; exact HI].
+      destruct Hf as [L M F]. split.
+      * eapply Inv_same_refs; eauto.
+      * intros j _ _. unfold sens_abs.
+        assert (Er : root w' j = root w j) by (unfold root; rewrite Hr; reflexivity).
+        rewrite Er. apply val_abs_frame. intros r Hr'.
+        apply F; [eapply sens_valid; eauto|]. intros Hs. destruct HI as [_ Hpr]. destruct (Hpr j r Hr') as (_ & P2 & _). eapply P2; exact Hs.
+  - (* OSetSens *)
+    unfold bind at 1. unfold get_var at 1.
+    destruct (set_se i p (nth v (vars w) VNone) w) as [w' res] eqn:E. cbn [fst].
+    apply set_se_footprint in E; [|apply sens_valid; exact HI|].
+    + split; [eapply Inv_sens_footprint; eauto|]. intros j Hj _. cbn in Hj. eapply sens_abs_sens_footprint; eauto.
+    + cbn in Hp. destruct Hp as [Hp|Hp]; [right; exact Hp|left]. intros r Hr. rewrite Hp in Hr; discriminate.
+  - (* OGetState *)
+    unfold bind. destruct (get_st i p w) as [w1 [a|e]] eqn:E; unfold get_st in E.
+    + apply get_fld_alloc in E as (Hr & Hv & He & Hd). specialize (Hd a eq_refl).
+      unfold put_var. cbn [fst].
+      destruct (step_put_var w w1 k a HI Hr Hv He) as [A B].
+      * eapply pubval_derived; eauto using pubval_state. apply heap_ext_len; exact He.
+      * split; [exact A|intros j _ _; apply B].
+    + apply get_fld_alloc in E as (Hr & Hv & He & _). cbn [fst].
+      destruct (world_heap_ext w w1 HI Hr Hv He) as [A B]. split; [exact A|intros j _ _; apply B].
+  - (* OGetSens *) destruct Hp.
+  - (* OAddSens *)
+    unfold bind at 1. unfold get_var at 1.
+    destruct (add_se i p (nth v (vars w) VNone) w) as [w' res] eqn:E. cbn [fst].
+    apply add_se_footprint in E; [|apply sens_valid; exact HI].
+    split; [eapply Inv_sens_footprint; eauto|]. intros j Hj _. cbn in Hj. eapply sens_abs_sens_footprint; eauto.
+  - (* OReset *)
+    destruct (reset i p kk w) as [w' res] eqn:E. cbn [fst].
+    apply reset_footprint in E; [|apply sens_valid; exact HI].
+    split; [eapply Inv_sens_footprint; eauto|]. intros j Hj _. cbn in Hj. eapply sens_abs_sens_footprint; eauto.
+Qed.
